@@ -765,6 +765,7 @@ impl LdapConnAsync {
     }
 
     async fn turn(mut self, mode: LoopMode) -> Result<Self> {
+        let mut routed = false;
         loop {
             tokio::select! {
                 req_id = self.id_scrub_rx.recv() => {
@@ -919,6 +920,7 @@ impl LdapConnAsync {
                             crate::verif::id_event("IdRelease", id, msgmap.0, "done");
                         }
                     } else if let Some(tx) = self.resultmap.remove(&id) {
+                        routed = true;
                         #[cfg(ldap3_verif)]
                         {
                             verif_route = "result";
@@ -945,6 +947,15 @@ impl LdapConnAsync {
             if let LoopMode::SingleOp = mode {
                 break;
             }
+        }
+        if let (LoopMode::SingleOp, false) = (&mode, routed) {
+            // The stream ended, or something other than the awaited response arrived: fail the
+            // exchange (dropping the connection drops the reply sender) instead of handing back
+            // a connection whose caller would wait for ever.
+            return Err(LdapError::from(io::Error::new(
+                io::ErrorKind::UnexpectedEof,
+                "connection ended or unexpected message before the response",
+            )));
         }
         Ok(self)
     }
